@@ -418,7 +418,7 @@ pub fn run(rep: &mut Report) {
         scs.push(Sc10 { calls: vec![Call::Gpu(gp[0].clone()), Call::Gpu(gp[1].clone()), Call::Gpu(gp[2].clone())], need_reply: false });
     }
     let start = std::time::Instant::now();
-    let total_budget = if thorough { 1500.0 } else { 45.0 };
+    let total_budget = if thorough { 1500.0 } else { 150.0 };
     let mut done = 0;
     let mut all_outcomes = std::collections::BTreeSet::new();
     for sc in &scs {
@@ -428,7 +428,7 @@ pub fn run(rep: &mut Report) {
             break;
         }
         let bound = if sc.calls.len() == 3 { 2 } else if thorough { 4 } else { 2 };
-        let st = explore(sc, bound, 200, remaining.min(if thorough { 120.0 } else { 6.0 }), rep, "C10", &outcome);
+        let st = explore(sc, bound, 200, remaining.min(if thorough { 120.0 } else { 20.0 }), rep, "C10", &outcome);
         rep.states += st.states;
         rep.traces += st.schedules;
         for o in &st.outcomes {
